@@ -12,7 +12,7 @@ from vlib.gen import graphs as H
 PID = "C10"
 TITLE = "Spanning trees and forests span, are acyclic, and respect exclusions"
 LEAN_MODULES = ["Mouette.Props.C10", "Mouette.Props.C10Kruskal", "Mouette.Props.C10KruskalMin", "Mouette.Props.C10Orient",
-                "Mouette.Props.C10Bridge", "Mouette.Props.C10Source", "Mouette.Props.C10Forest"]
+                "Mouette.Props.C10Bridge", "Mouette.Props.C10Source", "Mouette.Props.C10Forest", "Mouette.Props.C10AnyOrder"]
 REQUIRED_THEOREMS = ["bfs_terminates", "parent_children_consistent", "tree_edges_are_adjacencies", "edge_count",
                      "reached_eq_component", "bfs_min_hops", "traverse_once_parent_first", "forest_one_tree_per_component",
                      "kruskal_spanning_forest", "kruskal_sort_sorted", "kruskal_minimum", "orient_spec", "kruskal_forest",
@@ -31,7 +31,9 @@ REQUIRED_THEOREMS = ["bfs_terminates", "parent_children_consistent", "tree_edges
                      "bridge_computed_flag", "bridge_constructors", "polyline_edge_has_tree_edges", "polyline_face_has_tree_edges",
                      "kruskalStepUF_bridge", "bridge_kruskal_uf", "bridge_ufCtor", "kruskal_uf_eq",
                      # round 6: Euler-free forest facts packaged for C16 (Props/C10Forest.lean)
-                     "bfs_parent_forest"]
+                     "bfs_parent_forest",
+                     # round 7: the orientation clause for EVERY iteration order of the neighbour sets
+                     "orient_any_order", "bridge_orientG", "bridge_orientInitG", "mst_orientation_any_order", "kruskal_neighbour_sets"]
 
 _T, _B = "mouette/processing/trees/", "mouette/utils/unionfind.py::UnionFind."
 _VIS = "out-of-scope: debug / visualisation export, not part of the statement"
@@ -83,7 +85,7 @@ TRUSTED = [
     "traverse (+pop), Kruskal loop, neighbour sets, orientation, forest loops and accessors are re-translated from the working tree on "
     "every run (Generated/C10Loop.lean, C10Tree.lean) and proved equal to the model (Props/C10Bridge, C10Source); hand-modelled and tied "
     "by the exact comparison of tables / edge lists / traversal sequences on the cases of this run only: constructors (defaults, random "
-    "root drawn by random.randint — patched), Python set iteration order of the MST neighbour sets (children compared sorted); round 5: "
+    "root drawn by random.randint — patched), (the iteration order of the MST neighbour sets is NOT trusted any more: mst_orientation_any_order holds for every enumeration; children are compared sorted); round 5: "
     "constructors, the _computed flag, build_tree_as_polyline x3 are translated, and the Kruskal loop is also run on the UnionFind class as "
     "translated from unionfind.py by property C20 (bridge_kruskal_uf); the barycentre coordinates of the exported polylines are not modelled, "
     "the connectivity queries themselves (C01/C03)",
